@@ -76,7 +76,7 @@ def cases(ctx):
                      ('none', 'none', hx(bytes(32))), ('none', 'none', hx(bytes(31) + b'\x01')), ('none', 'none', hx(N.to_bytes(32, 'big'))),
                      ('none', 'none', hx(bytes(33))), ('none', '7', hx((9).to_bytes(32, 'big')))]:
             ctx.count('priv-init')
-            yield Case(f'priv_init {np(net)} {args[0]} {args[1]} {args[2]}', 'ms', nontrivial=True, tag='init',
+            yield Case(f'priv_init {np(net)} {args[0]} {args[1]} {args[2]}', 'gms', nontrivial=True, tag='init',
                        spec=lambda ans, args=args: explicit_spec(ans, args))
     # WIF import: valid, and every corruption class
     for _ in range(ctx.n(40, 1500)):
